@@ -3,6 +3,7 @@
 package main
 
 import (
+	"os"
 	"bytes"
 	"crypto/tls"
 	"encoding/hex"
@@ -476,8 +477,15 @@ func runCase(addr string, c *caseSpec, mid func()) *result {
 				// HTTP/2: the request is followed at once (same segment) by frames the server records for
 				// the connection's fingerprint, so that they arrive while the handler computes it
 				sid := sess.TakeStreamID()
-				fields := h2peer.GetFields("front.example", "/c16", hpack.HeaderField{Name: hs[0][0], Value: hs[0][1]})
-				b := h2peer.RawFrame(1, 0x5, sid, sess.Peer.Encode(fields))
+				var b []byte
+				if i%2 == 0 { // (a block is encoded only if it is sent: the HPACK tables must stay in step)
+					fields := h2peer.GetFields("front.example", "/c16", hpack.HeaderField{Name: hs[0][0], Value: hs[0][1]})
+					b = h2peer.RawFrame(1, 0x5, sid, sess.Peer.Encode(fields))
+				} else {
+					// a body that is declared empty and ended by an empty DATA frame (legal)
+					post := []hpack.HeaderField{{Name: ":method", Value: "POST"}, {Name: ":scheme", Value: "https"}, {Name: ":authority", Value: "front.example"}, {Name: ":path", Value: "/c16"}, {Name: hs[0][0], Value: hs[0][1]}, {Name: "content-length", Value: "0"}}
+					b = append(h2peer.RawFrame(1, 0x4, sid, sess.Peer.Encode(post)), h2peer.RawFrame(0, 0x1, sid, nil)...)
+				}
 				for k := 0; k < 4; k++ {
 					b = append(b, h2peer.RawFrame(4, 0, 0, []byte{0, 3, 0, 0, 0, byte(100 + k)})...)
 					b = append(b, h2peer.RawFrame(2, 0, sid+100+uint32(2*k), []byte{0, 0, 0, 0, byte(k)})...)
@@ -487,6 +495,15 @@ func runCase(addr string, c *caseSpec, mid func()) *result {
 					break
 				}
 				if r, ok := sess.Peer.WaitResponse(sid, 10*time.Second); !ok || r.Reset {
+					if f, e := os.OpenFile("/tmp/c16dbg.log", os.O_APPEND|os.O_CREATE|os.O_WRONLY, 0o644); e == nil && os.Getenv("VERIF_C16_DEBUG") != "" {
+						evs := sess.Peer.Events()
+						last := ""
+						for _, e := range evs[max(0, len(evs)-4):] {
+							last += e.String() + " ;; "
+						}
+						fmt.Fprintf(f, "case %d kind %s req %d sid %d ok=%v reset=%v code=%v last=%s\n", c.ID, c.Kind, i, sid, ok, r.Reset, r.ResetCode, last)
+						f.Close()
+					}
 					break
 				}
 				res.Responses++
